@@ -65,7 +65,7 @@ struct Model {
     std::vector<Force::LinearBushing> bushings;
     Model() : matter(sys), forces(sys) {}
 };
-static const char* MOB[] = {"Pin", "Ball", "Slider", "Universal", "Free", "Cylinder", "Gimbal", "Weld"};
+static const char* MOB[] = {"Pin", "Ball", "Slider", "Universal", "Free", "Cylinder", "Gimbal", "Weld", "LoneParticle"};
 
 static void runCase(uint64_t caseSeed) {
     vh::Rng r(caseSeed);
@@ -108,6 +108,21 @@ static void runCase(uint64_t caseSeed) {
         }
         M.bodies.push_back(mb); M.type.push_back(type); M.tags.push_back(std::string("mob.") + MOB[type]);
     }
+    // ---- optionally a lone particle (RBNodeLoneParticle: Translation on Ground, forward, identity frames, leaf), created
+    //      after the other mobilizers (so after any quaternion slots) and tied to the model by a spring.  Its choices
+    //      come from a separate stream so the rest of the case is unchanged.
+    {
+        vh::Rng r2(caseSeed ^ 0x5bd1e995c11ull);
+        if ((scn == 0 || scn == 3) && r2.below(3) == 0) {
+            Body::Rigid pbody(MassProperties(r2.range(0.3, 1.5), Vec3(0), Inertia(0)));
+            MobilizedBody::Translation part(matter.Ground(), Transform(), pbody, Transform());
+            M.bodies.push_back(part); M.type.push_back(8); M.tags.push_back("mob.LoneParticle");
+            int other = r2.below(nb + 1);
+            Force::TwoPointLinearSpring(M.forces, part, Vec3(0), M.bodies[other], Vec3(r2.range(-.4, .4), r2.range(-.4, .4), r2.range(-.4, .4)), r2.range(5, 40), r2.range(0.3, 1.2));
+            M.tags.push_back("force.TwoPointLinearSpring");
+        }
+    }
+    const int nbAll = (int)M.bodies.size() - 1;
     // ---- force elements
     if (!floating && scn != 4 && r.below(4) != 0) { Force::UniformGravity(M.forces, matter, rv(r, 6.0), r.range(-1, 1)); M.tags.push_back("force.UniformGravity"); }
     if (!floating && scn != 4 && r.below(4) == 0) { Force::Gravity g(M.forces, matter, UnitVec3(rv(r) + Vec3(0.1, 2, 0.3)), r.range(2, 9)); M.tags.push_back("force.Gravity"); }
@@ -154,7 +169,7 @@ static void runCase(uint64_t caseSeed) {
     auto setState = [&](State& st, vh::Rng rr) {      // note: rr by value -> same numbers every time it is called
         Vector q(st.getNQ()), u(st.getNU());
         double qs = scn == 4 ? 0.15 : 0.8, us = scn == 4 ? 0.6 : 1.0;
-        for (int i = 1; i <= nb; ++i) {
+        for (int i = 1; i <= nbAll; ++i) {
             const MobilizedBody& mb = M.bodies[i];
             int q0 = mb.getFirstQIndex(st), n = mb.getNumQ(st), k = 0;
             if (n == 0) continue;
@@ -224,7 +239,7 @@ static void runCase(uint64_t caseSeed) {
         Pv.push_back(matter.calcSystemMomentumAboutGroundOrigin(st));
         double d = 0; for (auto& b : M.bushings) d += b.getDissipatedEnergy(st);
         Dv.push_back(d);
-        for (int i = 1; i <= nb; ++i) maxR = std::max(maxR, M.bodies[i].getBodyOriginLocation(st).norm());
+        for (int i = 1; i <= nbAll; ++i) maxR = std::max(maxR, M.bodies[i].getBodyOriginLocation(st).norm());
     };
     State finalState;
     if (!failed) {
@@ -258,11 +273,11 @@ static void runCase(uint64_t caseSeed) {
         return;
     }
     const State& fs = finalState;
-    in.i(nb);
+    in.i(nbAll);
     double appliedPower = 0; SpatialVec appliedAboutG(Vec3(0), Vec3(0));
     const Vector_<SpatialVec>& Fb = sys.getRigidBodyForces(fs, Stage::Dynamics);
     const Vector& fm = sys.getMobilityForces(fs, Stage::Dynamics);
-    for (int i = 1; i <= nb; ++i) {
+    for (int i = 1; i <= nbAll; ++i) {
         const MobilizedBody& mb = M.bodies[i];
         const SpatialInertia& SI = mb.getBodySpatialInertiaInGround(fs);
         const Vec3& p = SI.getMassCenter(); const SymMat33& G = SI.getUnitInertia().asSymMat33();
@@ -278,7 +293,7 @@ static void runCase(uint64_t caseSeed) {
     for (int j = 0; j < fs.getNU(); ++j) appliedPower += fm[j] * fs.getU()[j];
     if (kind == "energy") {   // ground-attached: add the reactions of the base mobilizers (momentum_rate theorem)
         Vector_<SpatialVec> reac; matter.calcMobilizerReactionForces(fs, reac);
-        for (int i = 1; i <= nb; ++i) {
+        for (int i = 1; i <= nbAll; ++i) {
             const MobilizedBody& mb = M.bodies[i];
             if (mb.getParentMobilizedBody().getMobilizedBodyIndex() != 0) continue;
             const SpatialVec& R = reac[mb.getMobilizedBodyIndex()];      // applied to the body at its M frame origin, in Ground
